@@ -8,7 +8,9 @@ mod c04;
 mod c05;
 mod c06;
 mod c07;
+mod c13;
 mod c14;
+mod c15;
 mod c16;
 mod c17;
 mod fake;
@@ -25,7 +27,9 @@ fn main() {
         "C05" => c05::run(&args),
         "C06" => c06::run(&args),
         "C07" => c07::run(&args),
+        "C13" => c13::run(&args),
         "C14" => c14::run(&args),
+        "C15" => c15::run(&args),
         "C16" => c16::run(&args),
         "C17" => c17::run(&args),
         other => {
